@@ -320,7 +320,11 @@ fn gen_block<B: ToTokens>(
         return quote!(
             let __tracing_attr_span = #span;
             let __tracing_instrument_future = #mk_fut;
-            if !__tracing_attr_span.is_disabled() {
+            // A span that no collector is interested in still has lifecycle
+            // `log` records to emit when the `log` feature is on (and no
+            // collector was ever installed): only a span that is nothing at
+            // all may be bypassed.
+            if !__tracing_attr_span.is_none() {
                 #follows_from
                 tracing::Instrument::instrument(
                     __tracing_instrument_future,
